@@ -53,7 +53,7 @@ def r14c(ctx):
     stmts = list(task.body)
     # (b) member loop
     tdefs = flow.Defs(task)
-    loops = [s for s in stmts if isinstance(s, ast.For) and "exprs" in unparse(tdefs.expand(s.iter, at=s))]
+    loops = [s for s in stmts if isinstance(s, ast.For) and "exprs" in ast.unparse(tdefs.expand(s.iter, at=s))]
     if not loops:
         raise AnalysisError("anchor vanished: member loop of Fused._task")
     loop = loops[0]
